@@ -8,7 +8,7 @@ from . import common, tlaval
 
 QUOTES = {'d3': ('"""', '"""'), 's3': ("'''", "'''"), 'r': ('r"""', '"""'), 'R': ('R"""', '"""'), 'u': ("u'''", "'''"), 'one': ('"', '"')}
 IMPORT_LINE = ('import functools, contextlib; _deco = lambda f: f; '
-               '_wraps = lambda f: functools.wraps(f)(lambda *a, **k: f(*a, **k)); from harness.xdv_imported import imported_func, ImportedClass')
+               '_wraps = lambda f: functools.wraps(f)(lambda *a, **k: f(*a, **k)); from harness.xdv_imported import imported_func, ImportedClass, foreign_wraps')
 
 
 def decode(raw):
@@ -101,7 +101,9 @@ def render(case, rot=0):
             d = item['deco']
             name = item_name(items, it)
             out.append(ind + {'plain': '@_deco', 'property': '@property', 'setter': '@%s.setter' % name, 'deleter': '@%s.deleter' % name,
-                              'static': '@staticmethod', 'classm': '@classmethod', 'wraps': '@_wraps'}[d])
+                              'static': '@staticmethod', 'classm': '@classmethod',
+                              # a wraps-style decorator defined in this module, imported from another one, or from the standard library
+                              'wraps': ['@_wraps', '@foreign_wraps', '@contextlib.contextmanager'][(rot + it) % 3]}[d])
         elif t in ('head', 'head1', 'head2'):
             k = item['k']
             name = item_name(items, it)
